@@ -65,8 +65,8 @@ def pFontSpec : P FontSpec := fun ts =>
   match pList pNat ts5 with
   | none => none
   | some (reads, ts6) =>
-    -- a glyph name unknown to the table leaves the base entry alone (KeyError path of get_encoding)
-    let ds := diffs.filterMap (fun e => (glyphUnicode e.2).map (fun u => (e.1, u)))
+    -- a glyph name unknown to the table makes the code undefined (KeyError path of get_encoding)
+    let ds := diffs.map (fun e => (e.1, glyphUnicode e.2))
     some ({ kind := kind, base := base, diffs := ds, hasToUnicode := hasT != 0, tounicode := tou,
             cmap := cm, umap := um, usecmap := uc, reads := reads }, ts6)
 
